@@ -10,14 +10,16 @@
      st(s,list)     reassembly list metadata after the delivery
      end
    Monitors (VERIF-BAD, the rest of the trace is skipped):
-     sender:*    every frame obeys FrameOk on the stream of *valid* packets (so an invalid packet is never
-                 encapsulated), consecutive sequence numbers, correct header, everything is framed;
+     sender:payload-is-not-the-next-stream-bytes   a frame carries something else than the next bytes of the
+                 stream of *valid* packets (an invalid packet was encapsulated, bytes were lost or reordered);
+                 sender:closed-with-data-left / not-everything-framed / read-blocks / read-returned-nil;
      recv:emitted-packet-is-not-a-sent-packet   (any mode: the no-splice property)
      recv:invalid-packet-emitted
      lossless:*  in-order, loss-free delivery: the emitted sequence is exactly the sent sequence;
                  ":reassembly-capacity" when the deviation is the one the transcribed algorithm makes
                  because a packet spans more frames than the reassembly list holds.
-   VERIF-DRIFT: the receiver deviates from the transcription (SigFramingOps) without violating the
+   VERIF-DRIFT: the sender cuts frames differently from FrameOk (index field, header room, flushing, sequence
+   numbers); the receiver deviates from the transcription (SigFramingOps) without violating the
    statement (which frames are buffered, what is dropped under faults).                         *)
 EXTENDS SigFramingOps, TLC, Json
 
@@ -69,15 +71,23 @@ ExpectedIdx(s, n) ==
     LET inF == {k \in 1..Len(starts[s]) : c[s] <= starts[s][k] /\ starts[s][k] < c[s] + n} IN
     IF inF = {} THEN NoIdx ELSE MinOf({starts[s][k] : k \in inF}) - c[s]
 
+\* Only the stream property of a frame is a monitor: its payload is the next n bytes of the stream of valid
+\* packets (nothing lost, nothing reordered, no invalid packet encapsulated).  How the sender cuts the stream
+\* into frames (FrameOk: index field, room for a header, flushing) is conformance to this encoder: a deviation
+\* is drift here and becomes a violation only through its end-to-end effect (lossless / no-splice monitors).
+FrameDrift(s) ==
+    IF R.hdrok # 1 THEN "sender:frame-header"
+    ELSE IF R.seq # Len(frames[s]) THEN "sender:sequence-number"
+    ELSE IF R.n < 1 \/ R.n > F[s] THEN "sender:frame-size"
+    ELSE IF R.index # ExpectedIdx(s, R.n) THEN "sender:index-field"
+    ELSE IF ~FrameOk(c[s], R.n, R.index, wr[s], F[s], starts[s]) THEN "sender:frame-boundary"
+    ELSE ""
+
 Frame ==
     LET s == R.s IN
-    IF R.hdrok # 1 THEN Bad("sender:frame-header")
-    ELSE IF R.seq # Len(frames[s]) THEN Bad("sender:sequence-number")
-    ELSE IF R.pos # c[s] THEN Bad("sender:payload-is-not-the-next-stream-bytes")
-    ELSE IF R.n < 1 \/ R.n > F[s] THEN Bad("sender:frame-size")
-    ELSE IF R.index # ExpectedIdx(s, R.n) THEN Bad("sender:index-field")
-    ELSE IF ~FrameOk(c[s], R.n, R.index, wr[s], F[s], starts[s]) THEN Bad("sender:frame-boundary")
-    ELSE /\ frames' = [frames EXCEPT ![s] = Append(@, [seq |-> R.seq, index |-> R.index, n |-> R.n, c |-> c[s]])]
+    IF R.pos # c[s] \/ c[s] + R.n > wr[s] THEN Bad("sender:payload-is-not-the-next-stream-bytes")
+    ELSE /\ (FrameDrift(s) # "" => Drift(FrameDrift(s)))
+         /\ frames' = [frames EXCEPT ![s] = Append(@, [seq |-> R.seq, index |-> R.index, n |-> R.n, c |-> c[s]])]
          /\ c' = [c EXCEPT ![s] = @ + R.n]
          /\ UNCHANGED <<failed, mode, cap, F, lens, vers, starts, ids, wr, rl, rli, pending, nemit, capflush,
                         nmodel, nmodeli>>
